@@ -478,9 +478,12 @@ class Prop:
                 c["tensors"] = [rand_tensor_json(rng, shape, all_kinds_cycle(rng, N), maxr=rng.choice([1, 2, 3]), lo=lo, hi=hi)
                                 for _ in range(K)]
                 c["den"] = [1] * K; c["func"] = fname; c["function_arg"] = "vectors"
+                if fname in ("id", "affine", "abs", "add") and rng.random() < 0.35:
+                    # data of large magnitude: the estimate must still be the sampled entry itself
+                    c["den"] = [rng.choice([1e-8, 1e-12, 1e-15])] * K
                 fm = "|".join(tsig(t) for t in c["tensors"])
             c["tags"] = {"kind": "minmax", "api": api, "src": src, "func": c["func"], "N": N, "shape": "x".join(map(str, shape)),
-                         "formats": fm, "zero_min": zero_min}
+                         "formats": fm, "zero_min": zero_min, "magnitude": "%g" % (1.0 / c["den"][0]) if c.get("den") else "1"}
             cases.append(c)
 
         for N in (2, 3, 4, 5):
@@ -744,7 +747,7 @@ class Prop:
                     return False, "arg%s %s is not a position of the grid %s" % (which, pos, list(D.shape))
                 if not math.isfinite(v):
                     return False, "%s estimate is %r" % (which, v)
-                if not (abs(v - D[tuple(pos)]) <= 1e-6 * scale):
+                if not (abs(v - D[tuple(pos)]) <= 1e-9 * scale):
                     return False, "%s estimate %r is not the value %r attained at the reported arg%s %s" % (
                         which, v, float(D[tuple(pos)]), which, pos)
                 if which == "min" and not (v >= exp["min"] - 1e-6 * scale):
